@@ -1209,10 +1209,13 @@ class CParser:
     # BNF: struct_declarator : declarator? ':' constant_expression
     #                        | declarator (':' constant_expression)?
     def _parse_struct_declarator(self) -> "_DeclInfo":
-        if self._accept("COLON"):
+        colon_tok = self._accept("COLON")
+        if colon_tok:
             bitsize = self._parse_constant_expression()
             return {
-                "decl": c_ast.TypeDecl(None, None, None, None),
+                "decl": c_ast.TypeDecl(
+                    None, None, None, None, coord=self._tok_coord(colon_tok)
+                ),
                 "init": None,
                 "bitsize": bitsize,
             }
@@ -1944,7 +1947,7 @@ class CParser:
         expr = None
         result = self._try_parse_paren_type_name()
         if result is not None:
-            typ, mark, _ = result
+            typ, mark, lparen_tok = result
             # Disambiguate between casts and compound literals:
             #   (int) x   -> cast
             #   (int) {1} -> compound literal
@@ -1954,7 +1957,7 @@ class CParser:
                 self._expect("RBRACE")
                 # A compound literal is a postfix expression: it can be
                 # followed by [], (), ., ->, ++ and -- like any other.
-                expr = c_ast.CompoundLiteral(typ, init)
+                expr = c_ast.CompoundLiteral(typ, init, self._tok_coord(lparen_tok))
             else:
                 self._reset(mark)
 
